@@ -30,4 +30,59 @@ def recordLen (key value : List Nat) : Nat :=
 def record (key value : List Nat) : List Nat :=
   decDigits (recordLen key value) ++ [32] ++ key ++ [61] ++ value ++ [10]
 
+/-! ### reader side: `header_pax_extension` of archive_read_support_format_tar.c
+
+The body of an 'x' / 'g' header is a sequence of records.  For each the C reads the decimal length
+up to the blank (at most 99999999), the key up to the first '=' — both inside the first 512 bytes of
+what is left and inside the record — hands `length - consumed - 1` value bytes to `pax_attribute`
+and requires a newline after them.  `none`: one of the "Ignoring malformed pax attributes" exits. -/
+
+/-- The size field: digits up to the first blank. Returns (value, what follows the blank). -/
+def parseLen : List Nat → Nat → Option (Nat × List Nat)
+  | [], _ => none                                   -- ran out of the window
+  | c :: r, l =>
+    if c = 32 then some (l, r)
+    else if 48 ≤ c ∧ c ≤ 57 then
+      (if l * 10 + (c - 48) > 99999999 then none else parseLen r (l * 10 + (c - 48)))
+    else none
+
+/-- Index of the first '=' among the first `lim` bytes. -/
+def findEq : List Nat → Nat → Option Nat
+  | _, 0 => none
+  | [], _ => none
+  | c :: r, lim + 1 => if c = 61 then some 0 else (findEq r lim).map (· + 1)
+
+/-- One record off the front of `bs`: (key, value, rest).  `avail`: how many bytes the source has
+buffered; the reader asks for 512 (`max_size_name`) and looks at whatever it gets, so a key whose '='
+lies beyond the first 512 bytes of the record is found or not depending on the source's buffering. -/
+def parseRecord (bs : List Nat) (avail : Nat := 0) : Option (List Nat × List Nat × List Nat) :=
+  let w := bs.take (max 512 avail)
+  match parseLen w 0 with
+  | none => none
+  | some (len, afterW) =>
+    let used := w.length - afterW.length          -- digits and the blank
+    if len > bs.length then none else
+    let lim := min w.length len
+    if used ≥ lim then none else                  -- "empty name found"
+    match findEq (bs.drop used) (lim - used) with
+    | none => none                                -- "overlarge attribute name"
+    | some 0 => none                              -- "empty name found"
+    | some k =>
+      let key := (bs.drop used).take k
+      let vstart := used + k + 1
+      if len < vstart + 1 then none else          -- no room for the newline
+      let value := (bs.drop vstart).take (len - vstart - 1)
+      if (bs.drop (len - 1)).head? ≠ some 10 then none else
+      some (key, value, bs.drop len)
+
+/-- All records of an extended header body. -/
+def parseRecords (fuel : Nat) (bs : List Nat) (avail : Nat := 0) : Option (List (List Nat × List Nat)) :=
+  match fuel with
+  | 0 => if bs = [] then some [] else none
+  | fuel + 1 =>
+    if bs = [] then some [] else
+    match parseRecord bs avail with
+    | none => none
+    | some (k, v, rest) => (parseRecords fuel rest avail).map ((k, v) :: ·)
+
 end LA.Pax
